@@ -440,11 +440,10 @@ def check_pair(chk, case, obj, scheme, H, kappa, layers, CR=C_RT):
                      msg="encode(d) != _calc_precoder(H) @ d")
     if cf is not MISSING:
         Gp = np.asarray(cf(H2, 0.0))
-        Gp = Gp.reshape(1, 1) * np.ones((layers, nr)) if Gp.ndim == 0 else Gp
-        ok = Gp.shape == (layers, nr) and (N.close(Gp, G, kappa, CR) if np.asarray(cf(H2, 0.0)).ndim else
-                                           N.close(Gp @ Hc @ W, np.eye(layers), kappa, CR))
-        if not ok:
-            chk.fail((scheme, "decode_vs_receive_filter"), case, expected=0,
+        if Gp.ndim == 0:                        # MRT: a scalar filter
+            Gp = Gp.reshape(1, 1)
+        if Gp.shape != (layers, nr) or not N.close(Gp, G, kappa, CR):
+            chk.fail((scheme, "decode_vs_receive_filter"), case, observed=Gp.shape, expected=0,
                      msg="decode(y) != _calc_receive_filter(H, 0) applied to y")
 
 
@@ -490,6 +489,9 @@ def run_filters(chk, case):
             if G.shape != (nt, nr):
                 chk.fail(("zf_filter", "shape", nm), case, observed=G.shape, expected=(nt, nr))
                 continue
+            if not np.all(np.isfinite(G)):
+                chk.fail(("zf_filter", "not_finite", nm), case, observed=G, expected="finite filter")
+                continue
             if not N.close(G @ H, I, kappa, C_RT):
                 chk.fail(("zf_filter", "GH!=I", nm), case, observed=N.err(G @ H, I), expected=0)
             if not N.close(G, pinv_ref, kappa, C_RT):
@@ -517,6 +519,10 @@ def run_filters(chk, case):
             W = public_filter(M, H, s2)             # the MMSE filter reached through the public decode
             if W.shape != (nt, nr):
                 chk.fail(("mmse_filter", "shape"), case, observed=W.shape, expected=(nt, nr))
+                break
+            if not np.all(np.isfinite(W)):          # (library output is never fed to numpy.linalg unchecked)
+                chk.fail(("mmse_filter", "not_finite"), dict(case, sigma2=s2), observed=W, expected="finite filter",
+                         msg="s=%g" % s2)
                 break
             A = Hh @ H + s2 * I
             # defining equation; cond(A) = k2 <= kappa^2 (an inverse-based but correct
@@ -664,6 +670,8 @@ class HState:
         self.Hrep = None        # channel REPORTED by the object after an invalid call, when it is not chans[ch]
         self.invalid = []       # outcomes of the invalid calls of this history (never judged as such)
         self.passed = None      # (array object handed to the constructor / setter, copy of its content)
+        self.unavailable = []   # oracle inputs that could not be read (private names absent)
+        self.unknown = False    # the reported state after an invalid call cannot be determined: not judged
 
 
 def cur_H(scheme, st):
@@ -677,18 +685,31 @@ def cur_H(scheme, st):
 
 def resync_from_reported_state(scheme, st):
     """tools/INVALID_CALL_POLICY.md: after an invalid call the model is re-synchronised from the state the
-    object reports (the channel and noise variance it holds; pyphysim has no getters, the attributes
-    `_channel` / `_noise_var` are what Nr / Nt / decode read)"""
-    rep_ch = getattr(st.obj, "_channel", None)
+    object reports.  pyphysim has no public getters for the channel values / noise variance (only Nr, Nt), so
+    the attributes the object keeps them in are read through the tolerant `_private`; when they cannot be
+    found the public Nr / Nt decide whether the model channel can still be the held one, otherwise the
+    history is not judged further (outcome `oracle_input_unavailable`)"""
+    rep_ch = _private(st.obj, "_channel", "channel", "_H", "H")
     model = cur_H(scheme, st)
-    if rep_ch is None:
+    if rep_ch is MISSING:
+        st.unavailable.append("held_channel")
+        try:
+            dims = (st.obj.Nr, st.obj.Nt)
+        except Exception:  # noqa  - no channel held
+            dims = None
+        if (dims is None) != (model is None) or (dims is not None and dims != model.shape):
+            st.unknown = True
+    elif rep_ch is None:
         st.ch, st.Hrep = None, None
     elif model is None or np.shape(rep_ch) != model.shape or not np.array_equal(rep_ch, model):
         st.Hrep = np.array(rep_ch)
     if scheme in HAS_NOISE:
-        nv = getattr(st.obj, "_noise_var", 0.0)
-        # documented: "If noise_var is non-positive then the Zero-Force filter will be used"
-        st.noise = nv if (nv is not None and nv > 0) else 0.0
+        nv = _private(st.obj, "_noise_var", "noise_var")
+        if nv is MISSING:
+            st.unavailable.append("held_noise_var")     # the model keeps the last VALID value
+        else:
+            # documented: "If noise_var is non-positive then the Zero-Force filter will be used"
+            st.noise = nv if (nv is not None and nv > 0) else 0.0
 
 
 def hist_layers(scheme, H2):
@@ -719,7 +740,7 @@ def hist_build(scheme, hist):
                 st.obj.set_noise_var(ev[1])
                 st.noise = 0.0 if ev[1] is None else ev[1]
             elif ev[0].startswith("bad_"):
-                before = bfs.digest(st.obj.__dict__, 12)
+                before = bfs.digest(bfs.state_of(st.obj), 12)
                 try:
                     if ev[0] == "bad_noise":
                         st.obj.set_noise_var(-1.0)
@@ -730,7 +751,7 @@ def hist_build(scheme, hist):
                     how = "accepted"
                 except Exception as e:  # noqa  - an invalid call is free to raise anything (policy, item 1)
                     how = "raised:" + type(e).__name__
-                changed = bfs.digest(st.obj.__dict__, 12) != before
+                changed = bfs.digest(bfs.state_of(st.obj), 12) != before
                 st.invalid.append((ev[0], how, "object_changed" if changed else "object_unchanged"))
                 resync_from_reported_state(scheme, st)
             elif ev[0] == "sinr_lin":
@@ -738,9 +759,17 @@ def hist_build(scheme, hist):
             elif ev[0] == "sinr_db":
                 st.obj.calc_SINRs(ev[1])
             elif ev[0] == "precoder":
-                st.obj._calc_precoder(st.obj._channel)
+                f = _private(st.obj, "_calc_precoder", "calc_precoder")
+                if f is MISSING:
+                    st.unavailable.append("precoder_helper")
+                else:
+                    f(np.array(cur_H(scheme, st)))
             elif ev[0] == "recvfilter":
-                st.obj._calc_receive_filter(st.obj._channel, ev[1])
+                f = _private(st.obj, "_calc_receive_filter", "calc_receive_filter")
+                if f is MISSING:
+                    st.unavailable.append("receive_filter_helper")
+                else:
+                    f(np.array(cur_H(scheme, st)), ev[1])
             else:
                 H2 = cur_H(scheme, st)
                 d = hist_data(scheme, H2)
@@ -753,7 +782,7 @@ def hist_build(scheme, hist):
 
 
 def hist_enabled(scheme, hist, st):
-    if st.err is not None:
+    if st.err is not None or st.unknown:
         return []
     if cur_H(scheme, st) is None:
         return [e for e in hist_events(scheme) if e[0] in ("chan", "noise", "bad_noise", "bad_chan")]
@@ -780,8 +809,15 @@ def hist_invariant(chk, scheme, hist, st):
     case = {"part": "history", "scheme": scheme, "history": [list(e) for e in hist]}
     chk.count("eval_history_states")
     if st.err is not None:
+        if _origin(st.err) == "check":
+            raise Broken("check code raised %s: %s while replaying history %r" % (type(st.err).__name__, st.err, hist))
         chk.fail((scheme, "history", "exception", type(st.err).__name__, last_mutator(hist[:-1])), case,
                  observed="%s: %s" % (type(st.err).__name__, st.err), expected="no exception")
+        return
+    for nm in st.unavailable:
+        chk.outcome("oracle_input_unavailable", nm)
+        chk.count("oracle_input_unavailable")
+    if st.unknown:
         return
     for inv in st.invalid:                  # recorded, never judged (policy item 1)
         chk.outcome("invalid_call", (scheme,) + inv)
@@ -859,10 +895,17 @@ def hist_invariant(chk, scheme, hist, st):
                              observed=rk[:6], expected=rf[:6],
                              msg="round %d over the same object and channel; max err %.3g" % (rnd, N.err(rk, rf)))
                     break
-            held = np.asarray(obj._channel)
-            if held.shape != H2.shape or held.dtype != H2.dtype or not np.array_equal(held, H2):
+            # the held channel is observed through public behaviour (the rounds above, Nr / Nt); where the
+            # attribute is readable it is compared by VALUE as an extra
+            if (obj.Nr, obj.Nt) != H2.shape:
+                chk.fail((scheme, "history", "dimensions_changed_by_decode", when), dict(case, round=rnd),
+                         observed=(obj.Nr, obj.Nt), expected=H2.shape)
+                break
+            held = _private(obj, "_channel", "channel", "_H", "H")
+            if held is not MISSING and held is not None and (
+                    np.shape(held) != H2.shape or not np.array_equal(np.asarray(held), H2)):
                 chk.fail((scheme, "history", "held_channel_modified_by_decode", when), dict(case, round=rnd),
-                         observed=held, expected=H2)
+                         observed=np.asarray(held), expected=H2)
                 break
             if st.passed is not None and st.Hrep is None and not (
                     np.array_equal(st.passed[0], st.passed[1]) and st.passed[0].dtype == st.passed[1].dtype):
@@ -888,7 +931,7 @@ def run_histories(chk, depth):
                     invariant=lambda h, st, sc=scheme: hist_invariant(chk, sc, h, st),
                     canon=lambda h, st, sc=scheme: (sc, st.ch, st.noise, st.err is None,
                                                     bfs.digest(st.Hrep, 9),
-                                                    bfs.digest(st.obj.__dict__ if st.obj is not None else None, 9)),
+                                                    bfs.digest(bfs.state_of(st.obj) if st.obj is not None else None, 9)),
                     max_depth=depth, label="hist-" + scheme)
         b.run([(("new", 0),), (("new", None),)])
         chk.extra.setdefault("history_states_per_scheme", {})[scheme] = [b.states, b.transitions]
@@ -944,6 +987,8 @@ def multi_invariant(chk, hist, st):
     case = {"part": "multi", "history": [list(e) for e in hist]}
     chk.count("eval_multi_states")
     if st.err is not None:
+        if _origin(st.err) == "check":
+            raise Broken("check code raised %s: %s while replaying %r" % (type(st.err).__name__, st.err, hist))
         chk.fail(("multi_object", "exception", type(st.err).__name__), case,
                  observed="%s: %s" % (type(st.err).__name__, st.err), expected="no exception")
         return
@@ -980,7 +1025,7 @@ def run_multi(chk, depth):
                 enabled=lambda h, st: [] if st.err is not None else events,
                 invariant=lambda h, st: multi_invariant(chk, h, st),
                 canon=lambda h, st: (tuple(st.ch), tuple(st.noise), st.err is None,
-                                     bfs.digest([o.__dict__ for o in st.objs], 9)),
+                                     bfs.digest([bfs.state_of(o) for o in st.objs], 9)),
                 max_depth=depth, label="multi")
     b.run([()])
     chk.extra["multi_object_states"] = [b.states, b.transitions]
@@ -1004,10 +1049,15 @@ def main(chk: Check):
         run_item(chk, fam, member, H)
 
     def worker(i, n, c):
-        for fam, member, H in shard(itertools.islice(channel_items(c.tier), HEAD, None), i, n):
-            run_item(c, fam, member, H)
+        try:
+            for fam, member, H in shard(itertools.islice(channel_items(c.tier), HEAD, None), i, n):
+                run_item(c, fam, member, H)
+        except Broken as e:             # carried to the parent (a worker cannot exit 2 by itself)
+            c.extra["broken_in_worker"] = str(e)
 
     run_shards(chk, worker)
+    if chk.extra.get("broken_in_worker"):
+        raise Broken(chk.extra["broken_in_worker"])
     run_histories(chk, 5 if chk.tier == "thorough" else 4)
     run_multi(chk, 4 if chk.tier == "thorough" else 3)
     chk.require_outcomes("multi_config", 15)
